@@ -345,3 +345,401 @@ def rule_int(ctx, R, F):
             raise AnalysisBroken('PORT-INT: %s (%s) is not in the canonical form and no counterexample was found on %d boundary operand pairs: its correctness for all operands cannot be decided statically' % (q, where, len(pairs)))
     sm = F.func('smulh')
     R.check(sm['ret'] == 'long' and [p['ty'] for p in sm['params']] == ['long', 'long'], 'smulh signature', '%s:%d' % (sm['file'], sm['line']), expected='int64 (int64, int64)', found=(sm['ret'], [p['ty'] for p in sm['params']]))
+
+
+# ---------------------------------------------------------------------------------------------------------------------------
+# [PORT-ENDIAN] the byte-order branches of the portable wrappers, decided on a big-endian configuration
+
+class _BE:
+    """byte-accurate interpreter for the little load / store helpers: integers have the width of their type, unions are 16 native (big-endian) bytes,
+    memory is a byte map"""
+    W = {'unsigned char': 8, 'char': 8, 'uint8_t': 8, 'unsigned short': 16, 'unsigned int': 32, 'int': 32, 'uint32_t': 32, 'unsigned long': 64, 'long': 64, 'uint64_t': 64, 'unsigned long long': 64, 'long long': 64, 'double': 64}
+
+    def __init__(self, F):
+        self.F = F
+        self.mem = {}
+        self.objs = {}          # object id -> bytearray(16), native big-endian layout
+        self.next_obj = 0x900000
+        self.depth = 0
+
+    def width(self, ty):
+        t = (ty or '').replace('const ', '').replace('volatile ', '').strip()
+        if t.endswith('*') or t.endswith('&'):
+            return 64
+        if t in self.W:
+            return self.W[t]
+        raise AnalysisBroken('PORT-ENDIAN: type %r' % ty)
+
+    def scale(self, ty):
+        t = (ty or '').replace('const ', '').strip()
+        base = t[:-1].strip() if t.endswith('*') else None
+        if base is None:
+            return None
+        if base in ('void', 'char', 'unsigned char', 'uint8_t'):
+            return 1
+        if base in self.W:
+            return self.W[base] // 8
+        if 'rx_vec' in base or 'vec_u' in base:
+            return 16
+        raise AnalysisBroken('PORT-ENDIAN: pointer arithmetic on %r' % ty)
+
+    # ---- union lanes: ('lane', obj, bits, index)
+    def lane_read(self, obj, bits, idx):
+        nb = bits // 8
+        b = self.objs[obj][idx * nb:(idx + 1) * nb]
+        return int.from_bytes(bytes(b), 'big')
+
+    def lane_write(self, obj, bits, idx, v):
+        nb = bits // 8
+        self.objs[obj][idx * nb:(idx + 1) * nb] = (v & ((1 << bits) - 1)).to_bytes(nb, 'big')
+
+    def lane_of(self, n, env):
+        """(obj, bits, idx) for expressions like b.u32[i], x.i.u64[k], a.lo"""
+        n = strip_all(n)
+        while n['k'] == 'Cast':
+            n = strip_all(n['e'])
+        if n['k'] == 'Idx':
+            b = strip_all(n['b'])
+            while b['k'] == 'Cast':
+                b = strip_all(b['e'])
+            if b['k'] == 'Mem' and b.get('m') in ('u64', 'u32', 'u16', 'u8', 'i64', 'i32', 'd64'):
+                bits = {'u64': 64, 'i64': 64, 'd64': 64, 'u32': 32, 'i32': 32, 'u16': 16, 'u8': 8}[b['m']]
+                obj = self.obj_of(b['b'], env)
+                i = self.ev(n['i'], env)
+                return obj, bits, i
+        if n['k'] == 'Mem' and n.get('m') in ('lo', 'hi'):
+            return self.obj_of(n['b'], env), 64, 0 if n['m'] == 'lo' else 1
+        return None
+
+    def obj_of(self, n, env):
+        n = strip_all(n)
+        while n['k'] == 'Cast':
+            n = strip_all(n['e'])
+        if n['k'] == 'Mem' and n.get('m') in ('i', 'd', ''):
+            return self.obj_of(n['b'], env)
+        if n['k'] == 'Ref' and isinstance(env.get(n.get('id')), tuple) and env[n['id']][0] == 'obj':
+            return env[n['id']][1]
+        raise AnalysisBroken('PORT-ENDIAN: object %s' % show(n)[:40])
+
+    def new_obj(self):
+        self.next_obj += 16
+        self.objs[self.next_obj] = bytearray(16)
+        return self.next_obj
+
+    def ev(self, n, env):
+        n0 = n
+        n = strip_all(n)
+        if 'v' in n and n['k'] not in ('Assign', 'CAssign', 'Ref', 'Un'):
+            return n['v']
+        k = n['k']
+        if k == 'Cast':
+            v = self.ev(n['e'], env)
+            if n.get('ck') == 'IntegralCast' and isinstance(v, int):
+                return v & ((1 << self.width(n.get('ty'))) - 1)
+            return v
+        if k == 'Ref':
+            if n.get('id') in env:
+                return env[n['id']]
+            if 'v' in n:
+                return n['v']
+            raise AnalysisBroken('PORT-ENDIAN: value of %s' % show(n))
+        if k in ('Idx', 'Mem'):
+            ln = self.lane_of(n, env)
+            if ln is not None:
+                return self.lane_read(*ln)
+            if k == 'Mem' and n.get('m') in ('i', 'd'):
+                # the integer view of the float vector union (or back): the same sixteen native bytes
+                return ('obj', self.obj_of(n, env))
+            raise AnalysisBroken('PORT-ENDIAN: read of %s' % show(n)[:50])
+        if k == 'Un':
+            op = n.get('op')
+            if op == '*':
+                e = strip_all(n['e'])
+                while e['k'] == 'Cast':
+                    e = strip_all(e['e'])
+                if e['k'] == 'Un' and '++' in e.get('op', '') and e.get('post'):
+                    r = strip_all(e['e'])
+                    a = env[r['id']]
+                    env[r['id']] = a + (self.scale(r.get('ty')) or 1)
+                    return self.mem.get(a, 0xEE)
+                a = self.ev(n['e'], env)
+                if isinstance(a, int):
+                    if a in self.objs:
+                        return ('obj', a)
+                    if 'rx_vec' in (n.get('ty') or ''):
+                        o = self.new_obj()          # a whole-object load copies the native layout
+                        self.objs[o][:] = bytes(self.mem.get(a + j, 0xEE) for j in range(16))
+                        return ('obj', o)
+                    return self.mem.get(a, 0xEE)
+            if op == '&':
+                e = strip_all(n['e'])
+                if e['k'] == 'Ref' and isinstance(env.get(e.get('id')), tuple):
+                    return env[e['id']][1]
+                if e['k'] == 'Ref' and e.get('id') in env and isinstance(env[e['id']], int) and e.get('arr'):
+                    return env[e['id']]
+            if op == '~':
+                return ~self.ev(n['e'], env) & ((1 << self.width(n.get('ty'))) - 1)
+            if op in ('++', '--'):
+                r = strip_all(n['e'])
+                if r['k'] == 'Ref' and isinstance(env.get(r.get('id')), int):
+                    old_ = env[r['id']]
+                    env[r['id']] = old_ + (self.scale(r.get('ty')) or 1) * (1 if op == '++' else -1)
+                    return old_ if n.get('post') else env[r['id']]
+            raise AnalysisBroken('PORT-ENDIAN: unary %s in %s' % (op, show(n)[:40]))
+        if k == 'Bin':
+            op = n['op']
+            a, b = self.ev(n['l'], env), self.ev(n['r'], env)
+            if op in ('+', '-'):
+                sl = self.scale(n['l'].get('ty'))
+                sr = self.scale(n['r'].get('ty'))
+                if sl and not sr:
+                    b *= sl
+                elif sr and not sl:
+                    a *= sr
+                return a + b if op == '+' else a - b
+            if op in ('<', '<=', '>', '>=', '==', '!='):
+                return int({'<': a < b, '<=': a <= b, '>': a > b, '>=': a >= b, '==': a == b, '!=': a != b}[op])
+            if op == '*':
+                return (a * b) & ((1 << self.width(n.get('ty'))) - 1)
+            w = self.width(n.get('ty'))
+            m = (1 << w) - 1
+            if op == '<<':
+                return (a << b) & m
+            if op == '>>':
+                return (a >> b) & m
+            if op == '|':
+                return (a | b) & m
+            if op == '&':
+                return a & b & m
+            if op == '^':
+                return (a ^ b) & m
+            raise AnalysisBroken('PORT-ENDIAN: operator %s' % op)
+        if k == 'Call':
+            return self.call(n, env)
+        if k == 'Construct' and n.get('trivial'):
+            if not n.get('a'):
+                return ('obj', self.new_obj())
+            if len(n['a']) == 1:
+                return self.ev(n['a'][0], env)
+        raise AnalysisBroken('PORT-ENDIAN: expression %s' % show(n)[:60])
+
+    def call(self, n, env):
+        nm = n.get('name')
+        if n.get('opcall') == '=' and astq.is_node(n.get('this')) and len(n.get('a', [])) == 1:
+            # trivial copy assignment of the vector union: sixteen native bytes
+            rv = self.ev(n['a'][0], env)
+            l = strip_all(n['this'])
+            if not (isinstance(rv, tuple) and rv[0] == 'obj'):
+                raise AnalysisBroken('PORT-ENDIAN: operator= of %s' % show(n)[:50])
+            if l['k'] == 'Un' and l.get('op') == '*':
+                a = self.ev(l['e'], env)
+                if a in self.objs:
+                    self.objs[a][:] = self.objs[rv[1]]
+                else:
+                    for j in range(16):
+                        self.mem[a + j] = self.objs[rv[1]][j]
+            else:
+                self.objs[self.obj_of(l, env)][:] = self.objs[rv[1]]
+            return None
+        args = [self.ev(a, env) for a in n.get('a', [])]
+        if nm == 'memcpy':
+            raise AnalysisBroken('PORT-ENDIAN: memcpy in a byte-order branch (native-order copy)')
+        fn_ = n.get('fn') or nm
+        if not self.F.has_func(fn_):
+            raise AnalysisBroken('PORT-ENDIAN: call of %s' % fn_)
+        return self.run(self.F.func(fn_), args)
+
+    def run(self, f, args):
+        self.depth += 1
+        if self.depth > 6:
+            raise AnalysisBroken('PORT-ENDIAN: recursion')
+        env = {}
+        for p_, a in zip(f['params'], args):
+            if isinstance(a, tuple) and a[0] == 'obj':
+                # by-value struct: copy
+                o = self.new_obj()
+                self.objs[o][:] = self.objs[a[1]]
+                env[p_['id']] = ('obj', o)
+            else:
+                env[p_['id']] = a
+        try:
+            r = self.block(f['body'], env)
+        finally:
+            self.depth -= 1
+        return r[1] if isinstance(r, tuple) and r[0] == 'ret' else None
+
+    def block(self, s, env):
+        for st in (s['s'] if s['k'] == 'Compound' else [s]):
+            k = st['k']
+            if k == 'Decl':
+                for d in st['d']:
+                    ty = d.get('ty') or ''
+                    if 'rx_vec' in ty and '*' not in ty:
+                        o = self.new_obj()
+                        env[d['id']] = ('obj', o)
+                        if d.get('init') is not None:
+                            v = self.ev(d['init'], env)
+                            if isinstance(v, tuple) and v[0] == 'obj':
+                                self.objs[o][:] = self.objs[v[1]]
+                        continue
+                    if d.get('arrlen') is not None or re.search(r'\[\d+\]$', ty):
+                        self.next_obj += 64
+                        env[d['id']] = self.next_obj + 0x100000
+                        continue
+                    if d.get('init') is not None:
+                        v = self.ev(d['init'], env)
+                        if isinstance(v, int) and '*' not in ty:
+                            v &= (1 << self.width(ty)) - 1
+                        env[d['id']] = v
+                continue
+            if k == 'Return':
+                return ('ret', self.ev(st['e'], env) if astq.is_node(st.get('e')) else None)
+            if k == 'Compound':
+                r = self.block(st, env)
+                if r is not None:
+                    return r
+                continue
+            if k in ('For', 'While'):
+                if astq.is_node(st.get('init')):
+                    self.block(st['init'], env)
+                n_it = 0
+                while not astq.is_node(st.get('c')) or self.ev(st['c'], env):
+                    n_it += 1
+                    if n_it > 64:
+                        raise AnalysisBroken('PORT-ENDIAN: loop without a small bound')
+                    r = self.block(st['b'], env)
+                    if r is not None:
+                        return r
+                    if astq.is_node(st.get('inc')):
+                        self.block(st['inc'], env)
+                continue
+            top = strip_all(st)
+            if top['k'] in ('Assign', 'CAssign'):
+                l = strip_all(top['l'])
+                rv = self.ev(top['r'], env)
+                if l['k'] == 'Un' and l.get('op') == '*':
+                    e = strip_all(l['e'])
+                    while e['k'] == 'Cast':
+                        e = strip_all(e['e'])
+                    if e['k'] == 'Un' and '++' in e.get('op', '') and e.get('post'):
+                        r = strip_all(e['e'])
+                        a = env[r['id']]
+                        env[r['id']] = a + (self.scale(r.get('ty')) or 1)
+                    else:
+                        a = self.ev(l['e'], env)
+                    if isinstance(rv, tuple) and rv[0] == 'obj':
+                        for j in range(16):         # a whole-object store copies the native layout
+                            self.mem[a + j] = self.objs[rv[1]][j]
+                        continue
+                    self.mem[a] = rv & 0xff
+                    continue
+                ln = self.lane_of(l, env)
+                if ln is not None:
+                    self.lane_write(ln[0], ln[1], ln[2], rv)
+                    continue
+                if l['k'] == 'Mem' and l.get('m') in ('i', 'd') and isinstance(rv, tuple) and rv[0] == 'obj':
+                    self.objs[self.obj_of(l, env)][:] = self.objs[rv[1]]
+                    continue
+                if l['k'] == 'Ref':
+                    if top['k'] == 'CAssign':
+                        cur = env[l['id']]
+                        w = self.width(l.get('ty'))
+                        m = (1 << w) - 1
+                        op = top['op'][:-1]
+                        rv = {'|': lambda: cur | rv, '&': lambda: cur & rv, '>>': lambda: cur >> rv, '<<': lambda: (cur << rv) & m, '+': lambda: cur + rv, '^': lambda: cur ^ rv}[op]() & m
+                    env[l['id']] = rv
+                    continue
+                raise AnalysisBroken('PORT-ENDIAN: assignment to %s' % show(l)[:50])
+            if top['k'] == 'Call':
+                self.call(top, env)
+                continue
+            if top['k'] == 'Un':
+                self.ev(top, env)
+                continue
+            raise AnalysisBroken('PORT-ENDIAN: statement %s' % show(top)[:60])
+        return None
+
+
+def rule_endian(ctx, R):
+    R.rule('PORT-ENDIAN', 'on a big-endian target the portable load / store helpers still produce and consume the little-endian memory image the specification defines: load32 / load64 / store32 / store64 of blake2/endian.h byte by byte, '
+           'rx_load_vec_i128 / rx_store_vec_i128 lane by lane (32-bit lanes at offsets 0, 4, 8, 12), rx_load_vec_f128 / rx_store_vec_f128 (64-bit lanes at 0, 8) and the two casts between them; decided by a byte-accurate '
+           'evaluation of the helper bodies as parsed for a big-endian target, with unions laid out in native byte order', min_instances=10)
+    F = astq.Facts(ctx, 'K6')
+    R.saw(config='K6')
+    img = {j: j + 1 for j in range(16)}
+    L = [int.from_bytes(bytes(j + 1 for j in range(4 * i, 4 * i + 4)), 'little') for i in range(4)]
+    Q = [int.from_bytes(bytes(j + 1 for j in range(8 * i, 8 * i + 8)), 'little') for i in range(2)]
+    BASE = 0x1000
+
+    def where(f):
+        return '%s:%d' % (f['file'], f['line'])
+
+    # scalar helpers
+    for nm, nb in (('store32', 4), ('store64', 8)):
+        f = F.func(nm)
+        R.saw(fn=f['q'])
+        be = _BE(F)
+        be.run(f, [BASE, int.from_bytes(bytes(range(1, nb + 1)), 'little')])
+        got = [be.mem.get(BASE + j) for j in range(nb)]
+        R.check(got == list(range(1, nb + 1)) and len(be.mem) == nb, nm, where(f), expected='byte k of the value at offset k', found=got)
+    for nm, nb in (('load32', 4), ('load64', 8)):
+        f = F.func(nm)
+        R.saw(fn=f['q'])
+        be = _BE(F)
+        be.mem = {BASE + j: j + 1 for j in range(nb)}
+        got = be.run(f, [BASE])
+        want = int.from_bytes(bytes(range(1, nb + 1)), 'little')
+        R.check(got == want, nm, where(f), expected='%#x' % want, found='%#x' % got if isinstance(got, int) else got)
+    # 128-bit integer vectors
+    f = F.func('rx_store_vec_i128')
+    R.saw(fn=f['q'])
+    be = _BE(F)
+    o = be.new_obj()
+    for i in range(4):
+        be.lane_write(o, 32, i, L[i])
+    be.run(f, [BASE, ('obj', o)])
+    got = [be.mem.get(BASE + j) for j in range(16)]
+    R.check(got == [img[j] for j in range(16)], 'rx_store_vec_i128', where(f), expected='lane i (32 bits) little-endian at offset 4i', found=got)
+    f = F.func('rx_load_vec_i128')
+    R.saw(fn=f['q'])
+    be = _BE(F)
+    be.mem = {BASE + j: img[j] for j in range(16)}
+    r = be.run(f, [BASE])
+    lanes = [be.lane_read(r[1], 32, i) for i in range(4)] if isinstance(r, tuple) else None
+    R.check(lanes == L, 'rx_load_vec_i128', where(f), expected=[hex(x) for x in L], found=[hex(x) for x in lanes] if lanes else r)
+    # 128-bit float vectors (two 64-bit lanes)
+    f = F.func('rx_store_vec_f128')
+    R.saw(fn=f['q'])
+    be = _BE(F)
+    o = be.new_obj()
+    for i in range(2):
+        be.lane_write(o, 64, i, Q[i])
+    be.run(f, [BASE, ('obj', o)])
+    got = [be.mem.get(BASE + j) for j in range(16)]
+    R.check(got == [img[j] for j in range(16)], 'rx_store_vec_f128', where(f), expected='lane k (64 bits) little-endian at offset 8k', found=got)
+    f = F.func('rx_load_vec_f128')
+    R.saw(fn=f['q'])
+    be = _BE(F)
+    be.mem = {BASE + j: img[j] for j in range(16)}
+    r = be.run(f, [BASE])
+    lanes = [be.lane_read(r[1], 64, i) for i in range(2)] if isinstance(r, tuple) else None
+    R.check(lanes == Q, 'rx_load_vec_f128', where(f), expected=[hex(x) for x in Q], found=[hex(x) for x in lanes] if lanes else r)
+    # casts: the 64-bit lanes of the result are the pairs of 32-bit lanes of the argument, low lane first (what sharing the storage gives on a little-endian machine)
+    f = F.func('rx_cast_vec_i2f')
+    R.saw(fn=f['q'])
+    be = _BE(F)
+    o = be.new_obj()
+    for i in range(4):
+        be.lane_write(o, 32, i, L[i])
+    r = be.run(f, [('obj', o)])
+    lanes = [be.lane_read(r[1], 64, i) for i in range(2)] if isinstance(r, tuple) else None
+    R.check(lanes == Q, 'rx_cast_vec_i2f', where(f), expected=[hex(x) for x in Q], found=[hex(x) for x in lanes] if lanes else r)
+    f = F.func('rx_cast_vec_f2i')
+    R.saw(fn=f['q'])
+    be = _BE(F)
+    o = be.new_obj()
+    for i in range(2):
+        be.lane_write(o, 64, i, Q[i])
+    r = be.run(f, [('obj', o)])
+    lanes = [be.lane_read(r[1], 32, i) for i in range(4)] if isinstance(r, tuple) else None
+    R.check(lanes == L, 'rx_cast_vec_f2i', where(f), expected=[hex(x) for x in L], found=[hex(x) for x in lanes] if lanes else r)
